@@ -40,7 +40,9 @@ BOUNDS = {
               " and 3 calls (both splits symbolic), items of 1 MiB so that "
               "the writer's own chunk size is 10",
               "logs": "<= 2 stored + <= 2 appended lines, byte lengths "
-              "symbolic 0..300, existing width symbolic 100..200",
+              "symbolic 0..300, existing width symbolic 100..200; read back "
+              "through the real H5Logs reader, leading / trailing white "
+              "space of every line symbolic",
               "contours": "m = 0..3 stored, n = 1..3 appended, writer "
               "re-opened or not"},
     "thorough": {"append step": "m = 0..8, n = 1..9, chunk 1..12",
@@ -307,6 +309,44 @@ class LBytes:
     def __slen__(self):
         return self.nbytes
 
+    def decode(self, *a, **k):
+        return LText(self.tok)
+
+
+class LText:
+    """a decoded line; whether it starts / ends with white space is a
+    symbolic property of the line (a stripped line is a different text)"""
+
+    def __init__(self, tok, cut=()):
+        self.tok, self.cut = tok, tuple(cut)
+
+    def _strip(self, sides):
+        eng = Engine.cur
+        cut = list(self.cut)
+        for side in sides:
+            b = eng.bool("%s%d_%s_ws" % (self.tok.src, self.tok.idx, side))
+            if side not in cut and eng.branch(b.e):
+                cut.append(side)
+        return LText(self.tok, sorted(cut))
+
+    def rstrip(self, *a):
+        return self._strip(["tail"])
+
+    def lstrip(self, *a):
+        return self._strip(["head"])
+
+    def strip(self, *a):
+        return self._strip(["head", "tail"])
+
+
+class _BytesMeta(type):
+    def __instancecheck__(cls, x):
+        return isinstance(x, LBytes) or isinstance(x, bytes)
+
+
+class BytesShim(metaclass=_BytesMeta):
+    pass
+
 
 def slen(x):
     if hasattr(x, "__slen__"):
@@ -413,6 +453,19 @@ def run_logs(eng, p):
                           for r, e in zip(ds.rows, exp)]),
                   "logs: every line stored with its full length (no "
                   "truncation)")
+        # the real reader (RTDC_HDF5.logs)
+        rns = shadow(LG, bytes=BytesShim)
+        with quiet():
+            back = rns["H5Logs"](f)["mylog"]
+        eng.prove(z3.BoolVal(
+            len(back) == len(exp) and all(
+                isinstance(b, LText) and b.tok == e[0] and not b.cut
+                for b, e in zip(back, exp))),
+            "logs: the reader returns every line as written",
+            info={"read": ["%s%d%s" % (b.tok.src, b.tok.idx, " without its "
+                                       "%s white space" % "/".join(b.cut)
+                                       if b.cut else "") for b in back
+                           if isinstance(b, LText)]})
     return "ok"
 
 
@@ -558,13 +611,37 @@ def replay(case, params, v):
                        int(vals.get("newchars%d" % i,
                                     vals.get("newlen%d" % i, 5))), "n")
                     for i in range(n)]
+            def ws(line, tag, i):
+                if vals.get("%s%d_tail_ws" % (tag, i), False):
+                    line = (line[:-1] if line and ord(line[-1]) < 128
+                            else line) + " "
+                if vals.get("%s%d_head_ws" % (tag, i), False):
+                    line = " " + (line[1:] if len(line) > 1 and
+                                  ord(line[0]) < 128 else line)
+                return line
+            oldl = [ws(x, "oldline", i) for i, x in enumerate(oldl)]
+            newl = [ws(x, "newline", i) for i, x in enumerate(newl)]
             with RTDCWriter(path, mode="reset") as hw:
+                hw.store_feature("deform", np.linspace(.1, .2, 3))
                 if m:
                     hw.store_log("mylog", oldl)
                 hw.store_log("mylog", newl)
             with h5py.File(path, "r") as h:
                 got = [x.decode("utf-8", errors="replace")
                        for x in h["logs/mylog"][:]]
+            if got == oldl + newl:
+                import dclab
+                with h5py.File(path, "a") as h:    # a released version
+                    h.attrs["setup:software version"] = "dclab 0.62.7"
+                with dclab.new_dataset(path) as dsr:
+                    rd = list(dsr.logs["mylog"])
+                if rd != oldl + newl:
+                    bad = [i for i, (a, b) in enumerate(zip(rd, oldl + newl))
+                           if a != b]
+                    fails.append("reader: log line %r is returned as %r" % (
+                        (oldl + newl)[bad[0]], rd[bad[0]]) if bad else
+                        "reader: %d of %d log lines returned" % (
+                            len(rd), len(oldl + newl)))
             if got != oldl + newl:
                 bad = [i for i, (a, b) in enumerate(zip(got, oldl + newl))
                        if a != b]
@@ -579,6 +656,8 @@ def replay(case, params, v):
                   "truncated"
             if fails and any(len(x.encode()) != len(x) for x in newl):
                 key = "write_text|multi-byte-line|truncated"
+            if fails and fails[0].startswith("reader"):
+                key = "H5Logs|line-not-returned-as-written"
         elif p["kind"] == "index":
             m, n, mode = p["m"], p["n"], p["mode"]
             if m:
